@@ -543,7 +543,7 @@ def event_check(pid, tier, work, module, cfg, mc, runs, rule, assumptions, race_
             cur = []
             for line in f:
                 ln = json.loads(line)
-                classes.add((ln.get("ev"), ln.get("kind", ""), ln.get("err", "") != "", ln.get("tok", "").count("/")))
+                classes.add((ln.get("ev"), ln.get("kind", ln.get("codec", "")), ln.get("err", "") != "", ln.get("tok", ln.get("cut", "")).count("/") if "tok" in ln else ln.get("cut", "")))
                 if len(cur) < 14:
                     cur.append({k: v for k, v in ln.items() if k not in ("bad", "badamt", "i")})
             if len(samples) < 3:
@@ -578,8 +578,27 @@ def c14(pid, tier, work, replay):
         race_pid="C14")
 
 
+def c17(pid, tier, work, replay):
+    s = C.seed()
+    runs = [("c17-io", "vipreal", ["codecstress", str(s), str(sized(tier, 40, 600)), "io", "@TRACE", "@STATUS"], "x"),
+            ("c17-sockets", "viprace", ["codecstress", str(s + 1), str(sized(tier, 16, 120)), "sockets", "@TRACE", "@STATUS"], "x")]
+    if tier != "quick":
+        for i in range(4):
+            runs.append(("c17-sockets-%d" % i, "viprace", ["codecstress", str(s + 10 + i), "120", "sockets", "@TRACE", "@STATUS"], "x"))
+    return event_check(
+        pid, tier, work, "VipCodecTrace", "VipCodecTrace.cfg", [("VipCodec", "VipCodec.cfg")], runs,
+        "stream codec: seeded message sequences (requests, replies, errors, 1 byte to 300 KB, unicode, nested params) whose byte stream is "
+        "delivered whole, cut at and next to every message boundary, bytewise, at every single position (streams <= 400 bytes, exhaustive), "
+        "at random positions, and with two messages coalesced into one read; gorilla and gobwas WebSocket codecs and the HTTP server/service "
+        "pair over real sockets whose writes are dribbled out or held back and merged, in both directions, with 8 concurrent writers on the "
+        "gorilla codec and concurrent HTTP callers, under the race detector; distinct = (codec, cut class)",
+        ["chunk boundaries on real sockets are forced by small writes and delays; the kernel may still merge them"],
+        race_pid="C17")
+
+
 CHECKS = {
     "C10": c10,
+    "C17": c17,
     "C14": c14,
     "C13": c13,
     "C19": c19,
